@@ -8,11 +8,14 @@ PROP = {'gen': [],
  'props_module': 'Props.C13',
  'corr_check': 'SNT.Corr.C13Corr.c13_check (models Image/KDTree.v, Image/Octree.v, Image/Quantize.v vs '
                'surf_n_term::image::{KDTree, ColorPalette, OcTree} and Image::quantize)',
- 'level_text': 'Coq theorems over executable models of KDTree, OcTree, ColorPalette::from_image and Image::quantize: nearest-colour '
-               'search returns a minimal-distance entry for every palette (any length >= 1, duplicates) and every query; for every '
-               'non-empty image and k >= 1 palette extraction terminates (explicit fuel bound, stale caches included) with 1..max(k,8) '
-               'colours, every index is valid for any dithering error, undithered pixels map to nearest entries, and images whose '
-               'colours fit are reproduced exactly with and without dithering. Models tied to the code by exact differential runs.',
+ 'level_text': 'Coq theorems over executable models of KDTree, OcTree (packed OcTreePath proved equal to its lane-wise form for every '
+               'colour), ColorPalette::from_image and Image::quantize: nearest-colour search returns a minimal-distance entry for every '
+               'palette (any length >= 1, duplicates) and every query; for every non-empty image and every requested size >= 1 (up to '
+               'usize::MAX since the saturating-product fix) palette extraction terminates (explicit fuel bound, stale caches and '
+               'unreachable!() arms as Panic sites included) with 1..max(k,8) colours, every index is valid for any dithering error, '
+               'undithered pixels map to nearest entries, images whose colours fit are reproduced exactly with and without dithering; '
+               'the Floyd-Steinberg slots stay within 255.0 (exactness of the f32 arithmetic). Models tied to the code by exact '
+               'differential runs incl. sub-sampled images up to 10k pixels, crops of large parents and the Rnd stream.',
  'level_note': 'Trusted: Coq kernel + vm_compute; hand-written models validated by the correspondence run; '
                'rasterize blend_over enters as an oracle (effective pixels). No axioms.',
  'technique': 'Coq proof (k-d invariant, octree measure/invariants, induction over pixels) + model/implementation correspondence',
